@@ -1,0 +1,57 @@
+// Verification hooks: compiled only with `--cfg scale_info_verif` (and the `std` feature).
+// Off by default; nothing here changes behaviour of the crate.
+
+//! Off-by-default verification hooks: a thread-local, append-only event log.
+
+use crate::prelude::{any::TypeId, vec::Vec};
+use std::cell::RefCell;
+
+/// An event recorded by the registry while registering types.
+#[derive(Clone, Debug, PartialEq, Eq)]
+pub enum Event {
+    /// A type id went through the interner.
+    Intern {
+        /// The `TypeId` that was interned.
+        type_id: TypeId,
+        /// Whether the interner reported it as new.
+        inserted: bool,
+        /// The symbol id returned.
+        id: u32,
+        /// Number of interned elements after the call.
+        table_len_after: usize,
+    },
+    /// A definition is about to be stored for a freshly interned id.
+    DefStore {
+        /// The `TypeId` whose definition was evaluated.
+        type_id: TypeId,
+        /// The symbol id the definition is stored under.
+        id: u32,
+        /// Whether a definition was already stored under that id.
+        already_present: bool,
+        /// Number of stored definitions before the store.
+        defs_len_before: usize,
+    },
+}
+
+std::thread_local! {
+    static LOG: RefCell<Option<Vec<Event>>> = const { RefCell::new(None) };
+}
+
+/// Start (or restart) recording on this thread.
+pub fn start() {
+    LOG.with(|l| *l.borrow_mut() = Some(Vec::new()));
+}
+
+/// Stop recording and return what was recorded on this thread.
+pub fn take() -> Vec<Event> {
+    LOG.with(|l| l.borrow_mut().take()).unwrap_or_default()
+}
+
+/// Append an event if recording is on.
+pub fn emit(ev: Event) {
+    LOG.with(|l| {
+        if let Some(v) = l.borrow_mut().as_mut() {
+            v.push(ev)
+        }
+    });
+}
